@@ -112,9 +112,10 @@ class SdcLocation:
         if self.root != other.root:
             return False
         for attr_name in self.url_elements:
-            my_attr = getattr(self, attr_name)
+            # an empty string means 'not specified', exactly like None (it is not written to the scope string either)
+            my_attr = getattr(self, attr_name) or None
             if my_attr is not None:
-                if my_attr != getattr(other, attr_name):
+                if my_attr != (getattr(other, attr_name) or None):
                     return False
         return True
 
@@ -147,7 +148,7 @@ class SdcLocation:
     def __eq__(self, other: object) -> bool:
         attr_names = (*self.url_elements, 'root')
         try:
-            return all(getattr(self, attr_name) == getattr(other, attr_name) for attr_name in attr_names)
+            return all((getattr(self, attr_name) or None) == (getattr(other, attr_name) or None) for attr_name in attr_names)
         except AttributeError:
             return False
 
@@ -159,4 +160,4 @@ class SdcLocation:
 
     def __hash__(self):
         attr_names = (*self.url_elements, 'root')
-        return hash(tuple([getattr(self, attr_name) for attr_name in attr_names]))
+        return hash(tuple([getattr(self, attr_name) or None for attr_name in attr_names]))
